@@ -2,6 +2,7 @@ package sim
 
 import (
 	"fmt"
+	"log"
 	"reflect"
 	"sort"
 	"strings"
@@ -33,7 +34,26 @@ func SnapshotGlobals(deep bool) *GlobalsSnapshot {
 		snap.Names = append(snap.Names, g.Name)
 		snap.Hashes = append(snap.Hashes, h)
 	}
+	// process-wide state of the standard library that a library could (but must not) touch
+	snap.Names = append(snap.Names, "standard library log: default logger's output, flags, prefix")
+	snap.Hashes = append(snap.Hashes, stdLogHash())
 	return snap
+}
+
+func stdLogHash() uint64 {
+	h := HashU64(0, uint64(log.Flags()))
+	h = HashBytes(h, []byte(log.Prefix()))
+	w := log.Writer()
+	if w == nil {
+		return HashU64(h, 0)
+	}
+	v := reflect.ValueOf(w)
+	h = HashBytes(h, []byte(v.Type().String()))
+	switch v.Kind() {
+	case reflect.Ptr, reflect.Map, reflect.Chan, reflect.Func, reflect.UnsafePointer, reflect.Slice:
+		h = HashU64(h, uint64(v.Pointer()))
+	}
+	return h
 }
 
 // Diff returns the names of variables whose hash differs.
